@@ -1,6 +1,9 @@
 package props
 
-import "testing"
+import (
+	"os"
+	"testing"
+)
 
 func TestC20(t *testing.T) { runProp(t, "C20", drawC20) }
 
@@ -25,3 +28,13 @@ func TestC15(t *testing.T) { runProp(t, "C15", drawC15) }
 func TestC17(t *testing.T) { runProp(t, "C17", drawC17) }
 
 func TestC18(t *testing.T) { runProp(t, "C18", drawC18) }
+
+func TestC13(t *testing.T) { runProp(t, "C13", drawC13) }
+
+// TestWorker turns the test binary into a transcript server (see worker.go).
+func TestWorker(t *testing.T) {
+	if os.Getenv("VERIF_WORKER") != "1" {
+		t.Skip("not a worker")
+	}
+	workerMain()
+}
